@@ -286,7 +286,7 @@ def run_lincomb_lattice(ctx, con):
                     v2 = rand_vals(rng, shape, kind)
                     x1 = sp.element(mk_array(dt, layout3[0], v1))
                     x2 = sp.element(mk_array(dt, layout3[1], v2))
-                    poison = np.full(shape, np.nan) if kind in 'fc' else np.full(shape, 12345)
+                    poison = np.full(shape, complex(np.nan, np.nan)) if kind == 'c' else (np.full(shape, np.nan) if kind == 'f' else np.full(shape, 12345))
                     out = sp.element(mk_array(dt, layout3[2], poison))
                     if pat == 'x1=x2':
                         x2 = x1
